@@ -427,7 +427,14 @@ pub fn serde_roundtrip<S: USet>(e: &mut Eng<S>, i: usize, k: usize) {
             return;
         }
     }
-    let nums: Vec<u64> = js.trim_matches(|c| c == '[' || c == ']').split(',').filter(|x| !x.is_empty()).map(|x| x.trim().parse().unwrap()).collect();
+    let parsed: Result<Vec<u64>, _> = js.trim_matches(|c| c == '[' || c == ']').split(',').filter(|x| !x.is_empty()).map(|x| x.trim().parse::<u64>()).collect();
+    let nums = match parsed {
+        Ok(n) => n,
+        Err(_) => {
+            e.fail("C16,C19", format!("the serialised form is not a plain sequence of unsigned members: {}", &js[..js.len().min(80)]));
+            return;
+        }
+    };
     let mut l = String::new();
     for x in &nums {
         write!(l, " {}", x).unwrap();
